@@ -119,3 +119,11 @@ fn test_root() {
     assert_eq!(dsu.root(3), common);
     assert_eq!(dsu.root(4), 4);
 }
+
+#[cfg(clarabel_verif)]
+impl DisjointSetUnion {
+    /// read-only copy of the parent and rank arrays (verification hook)
+    pub(crate) fn verif_state(&self) -> (Vec<usize>, Vec<usize>) {
+        (self.parents.clone(), self.ranks.clone())
+    }
+}
